@@ -19,7 +19,7 @@ from fractions import Fraction
 
 import numpy as np
 
-from harness.core import MachineryError, REPO, f2b, flist, ilist
+from harness.core import MachineryError, REPO, b2f, f2b, flist, ilist
 
 MODEL_MODULES = ['SkyllhModel.Model.Rng']
 
@@ -157,19 +157,30 @@ def generated(ctx):
 # RandomChoice
 
 class _StubRandom:
-    """random state returning prescribed uniform deviates"""
+    """random state handing out prescribed uniform deviates in sequence, through whichever of the usual
+    entry points the code uses and in whatever batches"""
     def __init__(self, us):
         self.us = np.array(us, dtype=np.float64)
+        self.k = 0
+
+    def _take(self, size):
+        n = 1 if size is None else int(np.prod(size))
+        if self.k + n > len(self.us):
+            raise MachineryError('C08 stub random state: %d deviates prescribed, more requested' % len(self.us))
+        out = self.us[self.k:self.k + n].copy()
+        self.k += n
+        return float(out[0]) if size is None else out.reshape(size)
 
     def random(self, size=None):
-        assert size == len(self.us), 'RandomChoice asked for %r deviates, %d prescribed' % (size, len(self.us))
-        return self.us.copy()
+        return self._take(size)
 
     random_sample = random
 
+    def rand(self, *shape):
+        return self._take(shape if shape else None)
+
     def uniform(self, low=0.0, high=1.0, size=None):
-        assert low == 0 and high == 1
-        return self.random(size)
+        return low + (high - low) * self._take(size)
 
 
 class _StubRSS:
@@ -246,48 +257,116 @@ def _probe_us(rng, p, k):
     return us
 
 
-def _impl_choice(p, us):
+ITEM_KINDS = ['arange', 'perm', 'offset', 'repeat', 'float', 'str', 'struct']
+
+
+def make_items(ispec, n):
+    """(integer codes, item array): the model works on the codes, the implementation on the array.
+    ispec = {'kind': …, 'seed': …}; kinds: identity, permuted ints, offset ints, ints with repeated values,
+    floats, strings, structured rows."""
+    kind = (ispec or {}).get('kind', 'arange')
+    r = np.random.RandomState((ispec or {}).get('seed', 0))
+    if kind == 'arange':
+        codes = np.arange(n)
+    elif kind == 'offset':
+        codes = np.arange(n) + 17
+    elif kind == 'repeat':
+        codes = r.randint(0, max(1, n // 2) + 1, n)
+    else:
+        codes = r.permutation(n) + (3 if kind == 'perm' else 0)
+    return codes.astype(np.int64), _item_values(kind, codes)
+
+
+def _item_values(kind, codes):
+    codes = np.asarray(codes, dtype=np.int64)
+    if kind in ('arange', 'perm', 'offset', 'repeat'):
+        return codes.copy()
+    if kind == 'float':
+        return codes * 0.5 - 3.0
+    if kind == 'str':
+        return np.array(['s%07d' % c for c in codes], dtype='U8')
+    if kind == 'struct':
+        a = np.zeros(len(codes), dtype=[('id', np.int64), ('w', np.float64)])
+        a['id'] = codes
+        a['w'] = codes * 2.0 + 0.25
+        return a
+    raise ValueError(kind)
+
+
+def _arr_same(a, b):
+    a, b = np.asarray(a), np.asarray(b)
+    return a.shape == b.shape and a.dtype == b.dtype and a.tobytes() == b.tobytes()
+
+
+def _impl_choice(p, us, ispec=None):
+    """returned ITEMS (an array) | 'REJ:…' | 'EXC:…'"""
     from skyllh.core.random import RandomChoice
+    codes, items = make_items(ispec, len(p))
     try:
-        rc = RandomChoice(items=np.arange(len(p)), probabilities=p)
+        rc = RandomChoice(items=items, probabilities=p)
     except Exception as e:  # noqa
         return 'REJ:' + type(e).__name__
     try:
         res = rc(rss=_StubRSS(us), size=len(us))
+    except MachineryError:
+        raise
     except Exception as e:  # noqa
         return 'EXC:' + type(e).__name__
-    return ilist(res)
+    return np.asarray(res)
 
 
-def _choice_req(p, us):
-    return 'choice %d %s %s' % (1 if _gen()['sideRight'] else 0, flist(np.asarray(p, dtype=np.float64)), flist(us))
+def _choice_req(p, us, ispec=None):
+    codes, _ = make_items(ispec, len(p))
+    return 'choice %d %s %s %s' % (1 if _gen()['sideRight'] else 0, ilist(codes), flist(np.asarray(p, dtype=np.float64)), flist(us))
 
 
-def _choice_compare(impl, model):
+def _choice_compare(impl, model, ispec=None, counts=None):
     parts = dict(x.split(':', 1) for x in model.split(' '))
     if parts['coded'] != parts['spec']:
         return 'model: code path %s differs from specification form %s' % (parts['coded'][:200], parts['spec'][:200])
     m = parts['coded']
-    if impl.startswith('EXC:'):
+    # premises of c08_choice_support_float_level on the model's float cdf: sorted, starts >= 0, ends in exactly 1
+    if counts is not None and parts['cdf'] != 'ERR':
+        c = np.array([b2f(t) for t in parts['cdf'].split(',')])
+        ok = bool(np.all(np.isfinite(c)) and c[0] >= 0 and np.all(np.diff(c) >= 0) and c[-1] == 1.0)
+        counts('choice:float-level-premises-' + ('hold' if ok else 'FAIL'))
+    if isinstance(impl, str) and impl.startswith('EXC:'):
         return None if m == 'ERR' else 'implementation raised %s, model returns %s' % (impl[4:], m[:200])
-    if impl.startswith('REJ:'):
+    if isinstance(impl, str) and impl.startswith('REJ:'):
         return 'implementation rejected the probabilities (%s)' % impl[4:]
-    if impl != m:
-        return 'implementation %s, model %s' % (impl[:300], m[:300])
+    if m == 'ERR':
+        return 'model raises, implementation returns %r' % (impl[:10].tolist(),)
+    want = _item_values((ispec or {}).get('kind', 'arange'), [int(t) for t in m.split(',')] if m != '-' else [])
+    if not _arr_same(impl, want):
+        if impl.shape != want.shape or impl.dtype != want.dtype:
+            return 'implementation returns shape %r dtype %s, expected items of shape %r dtype %s' % (impl.shape, impl.dtype, want.shape, want.dtype)
+        k = [i for i in range(len(want)) if impl[i:i + 1].tobytes() != want[i:i + 1].tobytes()][0]
+        return 'returned item %d is %r, the model returns item %r' % (k, impl[k].tolist(), want[k].tolist())
     return None
 
 
+def _pyval(x):
+    x = x.tolist() if hasattr(x, 'tolist') else x
+    return tuple(x) if isinstance(x, (list, tuple)) else x
+
+
 def o_choice(ctx, case):
-    """support, size and inverse-CDF bracket of the returned items, in exact fractions"""
+    """returned ITEMS: every one is an item of strictly positive probability whose cumulative bracket
+    contains the deviate (exact fractions for n <= 4000, float prefix sums above), one per requested draw"""
     p = make_ps(case['ps'])
     us = case['us']
+    ispec = case.get('items')
     from skyllh.core.random import RandomChoice
+    codes, items = make_items(ispec, len(p))
+    items0 = items.copy()
     try:
-        rc = RandomChoice(items=np.arange(len(p)), probabilities=p)
+        rc = RandomChoice(items=items, probabilities=p)
     except Exception as e:  # noqa
         return 'RandomChoice rejected a valid probability vector %s: %s: %s' % (case['ps'], type(e).__name__, e)
     try:
         res = rc(rss=_StubRSS(us), size=len(us))
+    except MachineryError:
+        raise
     except Exception as e:  # noqa
         # find the single deviate that does it
         for u in us:
@@ -299,59 +378,77 @@ def o_choice(ctx, case):
     res = np.asarray(res)
     if res.shape != (len(us),):
         return 'RandomChoice returned shape %r for size=%d' % (res.shape, len(us))
+    if res.dtype != items.dtype:
+        return 'RandomChoice returned dtype %s for items of dtype %s' % (res.dtype, items.dtype)
     p64 = np.asarray(p, dtype=np.float64)
     n = len(p64)
-    bad = [(u, int(i)) for u, i in zip(us, res) if not (0 <= i < n) or not p64[int(i)] > 0]
-    if bad:
-        u, i = bad[0]
-        return ('RandomChoice(%s) returned item %d of probability %r for uniform deviate %r'
-                % (case['ps'], i, float(p64[i]) if 0 <= i < n else None, u))
-    # inverse-CDF bracket: prefix(i) <= u*T < prefix(i+1), up to the rounding of the float cumsum
-    if n <= 4000:
+    where = {}
+    for i in range(n):
+        where.setdefault(_pyval(items0[i]), []).append(i)
+    pos = np.flatnonzero(p64 > 0)
+    exact = n <= 4000
+    if exact:
         pref = [Fraction(0)]
         for x in p64:
             pref.append(pref[-1] + Fraction(float(x)))
         T = pref[-1]
         tol = T * Fraction(1, 10 ** 12) * max(1, n)
-        for u, i in zip(us, res):
-            x = Fraction(float(u)) * T
-            i = int(i)
-            if not (pref[i] - tol <= x <= pref[i + 1] + tol):
-                return ('RandomChoice(%s): deviate %r gives item %d whose cumulative bracket [%r, %r) does not contain u*sum=%r'
-                        % (case['ps'], u, i, float(pref[i]), float(pref[i + 1]), float(x)))
+    else:
+        pref = np.concatenate([[0.0], np.cumsum(p64)])
+        T = float(pref[-1])
+        tol = T * 1e-9
+    fpref = np.concatenate([[0.0], np.cumsum(p64)])
+    for k, u in enumerate(us):
+        v = _pyval(res[k])
+        idxs = where.get(v)
+        if idxs is None:
+            return ('RandomChoice(%s, items %s) returned %r for uniform deviate %r, which is not one of the items'
+                    % (case['ps'], ispec, v, u))
+        if not any(p64[i] > 0 for i in idxs):
+            return ('RandomChoice(%s, items %s) returned item %r (index %r) of probability 0.0 for uniform deviate %r'
+                    % (case['ps'], ispec, v, idxs[:3], u))
+        # indices of positive weight around the insertion point of u*T
+        j = int(np.searchsorted(pos, np.searchsorted(fpref[1:], u * float(fpref[-1]), side='right')))
+        cand = [int(pos[t]) for t in range(max(0, j - 2), min(len(pos), j + 3))]
+        x = (Fraction(float(u)) * T) if exact else float(u) * T
+        good = [i for i in cand if pref[i] - tol <= x <= pref[i + 1] + tol]
+        if not any(i in good for i in idxs):
+            return ('RandomChoice(%s, items %s): deviate %r gives item %r (index %r); the items whose cumulative bracket contains u*sum=%r '
+                    'are at index %r (items %r)' % (case['ps'], ispec, u, v, idxs[:3], float(x), good, [_pyval(items0[i]) for i in good]))
     # one deviate at a time gives the same items (no dependence on the other draws / on the sorting)
     if len(us) <= 64:
         for k in (0, len(us) - 1, len(us) // 2):
-            one = rc(rss=_StubRSS([us[k]]), size=1)
-            if int(one[0]) != int(res[k]):
-                return ('RandomChoice(%s): deviate %r gives item %d alone but item %d as draw %d of %d'
-                        % (case['ps'], us[k], int(one[0]), int(res[k]), k, len(us)))
+            one = np.asarray(rc(rss=_StubRSS([us[k]]), size=1))
+            if _pyval(one[0]) != _pyval(res[k]):
+                return ('RandomChoice(%s): deviate %r gives item %r alone but item %r as draw %d of %d'
+                        % (case['ps'], us[k], _pyval(one[0]), _pyval(res[k]), k, len(us)))
+    if not _arr_same(items, items0):
+        return 'RandomChoice changed the item array it was given'
     return None
 
 
 def o_choice_stream(ctx, case):
-    """with a real RandomStateService: same seed -> same items; exactly `size` doubles are consumed;
-    the items are those of the uniform deviates of that stream"""
+    """with a real RandomStateService: same seed -> same items (also after unrelated use of another object
+    and service); how many deviates a call consumes is a diagnostic only (the property does not fix it)"""
     from skyllh.core.random import RandomChoice, RandomStateService
     p = make_ps(case['ps'])
     seed, size = case['seed'], case['size']
-    rc = RandomChoice(items=np.arange(len(p)), probabilities=p)
+    codes, items = make_items(case.get('items'), len(p))
+    rc = RandomChoice(items=items, probabilities=p)
     rss = RandomStateService(seed)
     a = np.asarray(rc(rss=rss, size=size))
     nxt = rss.random.random_sample()
     ref = np.random.RandomState(seed).random_sample(size + 1)
-    if nxt != ref[size]:
-        return 'RandomChoice(size=%d) on seed %d did not consume exactly %d uniform deviates' % (size, seed, size)
+    ctx.count('diag:choice-consumes-exactly-size-deviates=%s' % (nxt == ref[size]))
     other = RandomStateService((seed + 1) % 2 ** 32)
     other.random.random_sample(7)
-    rc2 = RandomChoice(items=np.arange(len(p)), probabilities=p)
+    rc2 = RandomChoice(items=make_items(case.get('items'), len(p))[1], probabilities=make_ps(case['ps']))
     rc2(rss=other, size=3)
     b = np.asarray(rc2(rss=RandomStateService(seed), size=size))
-    if not np.array_equal(a, b):
+    if not _arr_same(a, b):
         return 'RandomChoice with seed %d, size %d returned different items in two runs' % (seed, size)
-    c = np.asarray(rc(rss=_StubRSS(ref[:size]), size=size))
-    if not np.array_equal(a, c):
-        return 'RandomChoice items are not those of the uniform deviates of RandomState(%d)' % seed
+    if a.shape != (size,):
+        return 'RandomChoice returned shape %r for size=%d' % (a.shape, size)
     return None
 
 
@@ -839,14 +936,15 @@ def o_time_history(ctx, case):
 
 def o_choice_history(ctx, case):
     """ONE RandomChoice object called repeatedly (different sizes, different services, prescribed and real
-    deviates): every call equals the call on a new RandomChoice object"""
+    deviates; the returned array is overwritten by the caller before the next call): every call equals the
+    call on a new RandomChoice object"""
     from skyllh.core.random import RandomChoice, RandomStateService
     p = make_ps(case['ps'])
-    items = np.arange(len(p))
+    codes, items = make_items(case.get('items'), len(p))
     rc = RandomChoice(items=items, probabilities=p)
     p0, items0 = np.array(p, copy=True), items.copy()
     for k, st in enumerate(case['steps']):
-        fresh = RandomChoice(items=np.arange(len(p)), probabilities=make_ps(case['ps']))
+        fresh = RandomChoice(items=make_items(case.get('items'), len(p))[1], probabilities=make_ps(case['ps']))
         try:
             if 'us' in st:
                 got = rc(rss=_StubRSS(st['us']), size=len(st['us']))
@@ -856,14 +954,22 @@ def o_choice_history(ctx, case):
                 got = rc(rss=RandomStateService(st['seed']), size=st['size'])
                 want = fresh(rss=RandomStateService(st['seed']), size=st['size'])
                 n = st['size']
+        except MachineryError:
+            raise
         except Exception as e:  # noqa
             return 'call %d of %r on one RandomChoice(%s) raised %s: %s' % (k, case['steps'], case['ps'], type(e).__name__, e)
         got, want = np.asarray(got), np.asarray(want)
-        if got.shape != (n,) or not np.array_equal(got, want):
-            return ('RandomChoice(%s) depends on its earlier calls: after %r, call %d (%r) returns %r, a new object returns %r'
-                    % (case['ps'], case['steps'][:k], k, st, got.tolist()[:20], want.tolist()[:20]))
-        if not np.array_equal(np.asarray(rc.probabilities), p0) or not np.array_equal(np.asarray(rc.items), items0):
-            return 'RandomChoice call %d changed the stored items/probabilities' % k
+        if got.shape != (n,) or not _arr_same(got, want):
+            return ('RandomChoice(%s, items %s) depends on its earlier calls: after %r, call %d (%r) returns %r, a new object returns %r'
+                    % (case['ps'], case.get('items'), case['steps'][:k], k, st, got.tolist()[:20], want.tolist()[:20]))
+        if got.dtype != items0.dtype:
+            return 'RandomChoice(items of dtype %s) returned an array of dtype %s' % (items0.dtype, got.dtype)
+        # the caller owns the returned array: overwriting it must not reach the object
+        if len(got) and got.flags.writeable:
+            got[...] = got[::-1].copy()
+            got[:1] = items0[:1]
+        if not _arr_same(np.asarray(rc.probabilities), p0) or not _arr_same(np.asarray(rc.items), items0):
+            return 'RandomChoice call %d (or overwriting its result) changed the stored items/probabilities' % k
     return None
 
 
@@ -911,7 +1017,8 @@ def o_corr(ctx, case):
     k = case['kind']
     if k == 'choice':
         p = make_ps(case['ps'])
-        return _choice_compare(_impl_choice(p, case['us']), ctx.driver('C08', [_choice_req(p, case['us'])])[0])
+        return _choice_compare(_impl_choice(p, case['us'], case.get('items')),
+                               ctx.driver('C08', [_choice_req(p, case['us'], case.get('items'))])[0], case.get('items'))
     if k == 'seed':
         m = dict(x.split(':') for x in ctx.driver('C08', [_seed_req(case)])[0].split(' '))
         return _seed_compare(case, _impl_seed(case['used'], case['cur']), m)
@@ -1064,10 +1171,10 @@ def run(ctx):  # noqa: C901
     cases, oracle_cases = [], []
 
     # ---- RandomChoice
-    sizes = [1, 1, 2, 2, 3, 5, 8, 10, 33, 100, 1000] + ([3000, 10000, 100000] if ctx.thorough else [3000])
+    sizes = [1, 1, 2, 2, 3, 5, 8, 10, 33, 100, 1000, 3000, 10000, 100000]
     n_ch = ctx.n(70, 1500)
     for j in range(n_ch):
-        n = sizes[j % len(sizes)] if j < 2 * len(sizes) else rng.choice(sizes[:10])
+        n = sizes[j % len(sizes)] if j < (2 if ctx.thorough else 1) * len(sizes) else rng.choice(sizes[:11])
         mode = rng.choice(['dense', 'zeros', 'zeros', 'zeros', 'onehot', 'dyadic', 'dyadic', 'tiny'])
         spec = {'n': n, 'mode': mode, 'seed': rng.randrange(2 ** 31)}
         if mode == 'zeros':
@@ -1084,17 +1191,20 @@ def run(ctx):  # noqa: C901
         ctx.count('choice:mode=%s' % mode)
         ctx.count('choice:dtype=%s' % spec.get('dtype', 'float64'))
         ctx.count('choice:n=%s' % ('1' if n == 1 else '2-10' if n <= 10 else '11-1000' if n <= 1000 else '>1000'))
-        c = {'kind': 'choice', 'ps': spec, 'us': us}
+        ispec = {'kind': ITEM_KINDS[j % len(ITEM_KINDS)] if j < 3 * len(ITEM_KINDS) else rng.choice(ITEM_KINDS), 'seed': rng.randrange(2 ** 31)}
+        ctx.count('choice:items=%s' % ispec['kind'])
+        c = {'kind': 'choice', 'ps': spec, 'us': us, 'items': ispec}
         cases.append(c)
-        oracle_cases.append(('choice', {'ps': spec, 'us': us}))
+        oracle_cases.append(('choice', {'ps': spec, 'us': us, 'items': ispec}))
         if j % 5 == 0:
-            oracle_cases.append(('choice_stream', {'ps': spec, 'seed': rng.choice([0, 1, 2, 7, 12345, 2 ** 32 - 1]), 'size': rng.choice([1, 2, 5, 50])}))
+            oracle_cases.append(('choice_stream', {'ps': spec, 'items': ispec, 'seed': rng.choice([0, 1, 2, 7, 12345, 2 ** 32 - 1]), 'size': rng.choice([1, 2, 5, 50])}))
     # small explicit vectors: zero in front, in the middle, at the end
     for ps in ([0.0, 1.0], [1.0, 0.0], [0.5, 0.0, 0.5], [0.0, 0.25, 0.0, 0.0, 0.75, 0.0], [1.0], [0.25, 0.25, 0.25, 0.25]):
         spec = {'explicit': ps}
         us = [0.0, 0.25, 0.5, 0.75, float(np.nextafter(1.0, 0.0)), float(np.nextafter(0.5, 0.0)), 0.5]
-        cases.append({'kind': 'choice', 'ps': spec, 'us': us})
-        oracle_cases.append(('choice', {'ps': spec, 'us': us}))
+        ispec = {'kind': rng.choice(ITEM_KINDS[1:]), 'seed': rng.randrange(2 ** 31)}
+        cases.append({'kind': 'choice', 'ps': spec, 'us': us, 'items': ispec})
+        oracle_cases.append(('choice', {'ps': spec, 'us': us, 'items': ispec}))
 
     # ---- unused-seed search: all subsets of {0..6} x all current seeds 0..7
     for r in range(0, 8):
@@ -1187,7 +1297,7 @@ def run(ctx):  # noqa: C901
                 steps.append({'seed': rng.choice(seeds), 'size': rng.choice([0, 1, 2, 7, 50, 300])})
             else:
                 steps.append({'us': [rng.choice([0.0, 0.5, float(np.nextafter(1.0, 0.0)), rng.random()]) for _ in range(rng.randrange(1, 9))]})
-        oracle_cases.append(('choice_history', {'ps': spec, 'steps': steps}))
+        oracle_cases.append(('choice_history', {'ps': spec, 'steps': steps, 'items': {'kind': rng.choice(ITEM_KINDS), 'seed': rng.randrange(2 ** 31)}}))
     for j in range(ctx.n(20, 300)):
         steps = []
         for _ in range(rng.randrange(2, 8)):
@@ -1205,8 +1315,8 @@ def run(ctx):  # noqa: C901
         k = c['kind']
         if k == 'choice':
             p = make_ps(c['ps'])
-            reqs.append(_choice_req(p, c['us']))
-            impls.append((_impl_choice(p, c['us']),))
+            reqs.append(_choice_req(p, c['us'], c.get('items')))
+            impls.append((_impl_choice(p, c['us'], c.get('items')),))
         elif k == 'seed':
             reqs.append(_seed_req(c))
             impls.append((_impl_seed(c['used'], c['cur']),))
@@ -1223,7 +1333,7 @@ def run(ctx):  # noqa: C901
         ctx.case(nontrivial=True, key=c, desc=c if ctx.evaluations % 211 == 0 and k != 'choice' or ctx.evaluations == 3 else None)
         ctx.count('corr:' + k)
         if k == 'choice':
-            d = _choice_compare(i[0], m)
+            d = _choice_compare(i[0], m, c.get('items'), ctx.count)
         elif k == 'seed':
             d = _seed_compare(c, i[0], dict(x.split(':') for x in m.split(' ')))
         elif k == 'hist':
@@ -1271,13 +1381,13 @@ def _explicit(oc):
     p = make_ps(oc['ps'])
     if len(p) > 64:
         return oc
-    return {'ps': {'explicit': [float(x) for x in p], 'dtype': oc['ps'].get('dtype', 'float64')}, 'us': oc['us']}
+    return dict(oc, ps={'explicit': [float(x) for x in p], 'dtype': oc['ps'].get('dtype', 'float64')})
 
 
 def _shrink_choice(ctx, oc):
     """smallest failing set of deviates (one, if a single deviate already fails)"""
     for u in oc['us']:
-        c = {'ps': oc['ps'], 'us': [u]}
+        c = dict(oc, us=[u])
         if o_choice(ctx, c):
             return c
     return None
@@ -1286,7 +1396,7 @@ def _shrink_choice(ctx, oc):
 def _oracle_cases_for(c):
     k = c['kind']
     if k == 'choice':
-        return [('choice', _explicit({'ps': c['ps'], 'us': c['us']}))]
+        return [('choice', _explicit({'ps': c['ps'], 'us': c['us'], 'items': c.get('items')}))]
     if k == 'seed':
         return [('seed', {'used': c['used'], 'cur': c['cur'], 'rows': 1})]
     if k == 'hist':
